@@ -605,14 +605,15 @@ def case_of(E, A):
     return {"exp": "def f" + tsrc(*E), "act": "def g" + tsrc(*A), "E": E, "A": A}
 
 
-def pick_class(dcls, prefer):
+def pick_class(dcls, allowed):
+    """The exception class of the pair that can explain this kind of candidate (None = none can: new)."""
     if dcls in (None, "-", ""):
         return None
     cs = dcls.split(",")
-    for p in prefer:
+    for p in allowed:
         if p in cs:
             return p
-    return cs[0]
+    return None
 
 
 def evaluate(ctx, pairs, with_model=True, e2e_every=None, spec_every=7):
@@ -688,7 +689,7 @@ def evaluate(ctx, pairs, with_model=True, e2e_every=None, spec_every=7):
             ctx.candidate(dict(case, call=call_txt(npos, ks), argument=list(key), lands_exp=S, lands_act=T),
                           "accepted, but in %s the argument %s lands on a parameter annotated %s in the expected header "
                           "and on one annotated %s in the actual function (not a supertype)" % (call_txt(npos, ks), key, S, T),
-                          cls=pick_class(dcls, ["kwShadow", "posKwClash", "starKwClash"]), conforms=conforms, stream="unit")
+                          cls=pick_class(dcls, ["posKwClash"]), conforms=conforms, stream="unit")
         if not incl(A[1], E[1]):
             ctx.candidate(case, "accepted, but the return annotation %s of the actual function is not included in the "
                           "expected %s" % (A[1], E[1]), cls=None, conforms=conforms, stream="unit")
